@@ -10,7 +10,7 @@ or a margin's reference size in layout.py breaks these proofs at the next run.
 
 Only property theorems live here; lemmas are in `Lemmas/LayoutSpec.lean`, `Lemmas/LayoutScale.lean`.
 -/
-import PdfVerif.Lemmas.LayoutSpec
+import PdfVerif.Lemmas.LayoutOrder
 
 namespace PdfVerif.Props.C09
 open PdfVerif PdfVerif.Gen.Layout PdfVerif.Layout
@@ -108,6 +108,33 @@ theorem C09_column_order_partial (bf : Rat) (a b : BB) :
     (bf < 1 → a.y0 + a.y1 = b.y0 + b.y1 → a.x0 < b.x0 → key_lrtb bf a < key_lrtb bf b) :=
   ⟨fun h1 h2 h3 => key_lrtb_column bf h1 a b h2 h3, fun h1 h2 h3 => key_lrtb_columns bf h1 a b h2 h3⟩
 
+/-- **Reading order without the hierarchy (`boxes_flow = None`), full statement.**  For every page the
+text boxes come out sorted by the documented positional key: vertical boxes first (by descending right
+edge, then descending bottom edge), then horizontal boxes by descending bottom edge - i.e. the boxes of a
+column top to bottom - and, for equal bottom edges, from left to right. -/
+theorem C09_order_none {le : Cmp} (p : LAParams) (hbf : p.boxes_flow = none) (pageBB : BB) (items : List Item) :
+    (boxesOf (analyze le p pageBB items)).Pairwise (fun a b => tupleLe (getkey a) (getkey b) = true) := by
+  by_cases h : (items.filterMap Item.glyph?).isEmpty = true
+  · have : (analyze le p pageBB items).children = items.map Item.toChild := by simp [analyze, h]
+    have hb : boxesOf (analyze le p pageBB items) = [] := by
+      simp only [boxesOf, this, List.filterMap_map, List.filterMap_eq_nil_iff]
+      intro it _
+      cases it <;> rfl
+    rw [hb]; exact List.Pairwise.nil
+  · have st := stages le p pageBB items (by simpa using h)
+    rw [boxesOf_stages st]
+    exact finalBoxes_none_sorted p hbf pageBB st.boxes
+
+/-- In particular two horizontal boxes `a` before `b` in the output satisfy `b.y0 ≤ a.y0`. -/
+theorem C09_order_none_top_to_bottom (a b : Box) (ha : a.vertical = false) (hb : b.vertical = false)
+    (h : tupleLe (getkey a) (getkey b) = true) : b.bb.y0 ≤ a.bb.y0 := by
+  rw [tupleLe_iff] at h
+  simp only [getkey, ha, hb, Bool.false_eq_true, if_false, getkey_h] at h
+  rcases h with h | ⟨_, h | ⟨h, _⟩⟩
+  · omega
+  · linarith
+  · linarith
+
 /-! ### scale invariance -/
 
 /-- **Every predicate and measure is homogeneous**: multiplying all coordinates by `s > 0` changes no
@@ -147,27 +174,51 @@ theorem C09_scale_neighbours {s : Rat} (hs : 0 < s) (ratio : Rat) (hr : 0 ≤ ra
     ↔ j ∈ neighbors ratio (mkPlane pageBB (lines.zipIdx.map fun (x : Line × Nat) => x.1.pobj x.2)) lines l :=
   neighbors_scale hs ratio hr pageBB hp lines hne l hl j
 
-/-- The full statement that is NOT true of the code (see `C09_scale_cex`). -/
-def C09_scale_statement : Prop :=
-  ∀ (s : Rat), 0 < s → ∀ (p : LAParams) (pageBB : BB) (lines : List Line),
-    (groupTextlines p (scaleBB s pageBB) (lines.map (scaleLine s))).map (fun b => b.lines.map (·.glyphs.map (·.id)))
-      = (groupTextlines p pageBB lines).map (fun b => b.lines.map (·.glyphs.map (·.id)))
+/-- **Order of the neighbours.**  After the repair of `Plane.find` (objects reported in insertion order,
+C20 `plane_find_order`) `find_neighbors` lists the neighbouring lines in the order of the lines - not in
+the scan order of the 50-unit grid, which depends on the scale. -/
+theorem C09_find_neighbors_order (ratio : Rat) (hr : 0 ≤ ratio) (pageBB : BB) (hp : WfPage pageBB) (lines : List Line)
+    (hne : ∀ l ∈ lines, l.isEmpty = false) (l : Line) (hl : l ∈ lines) :
+    (neighbors ratio (mkPlane pageBB (lines.zipIdx.map fun (x : Line × Nat) => x.1.pobj x.2)) lines l).Pairwise (· < ·) :=
+  neighbors_sorted ratio hr pageBB hp lines hne l hl
 
-def cexLine (id : Nat) (y0 : Rat) : Line := newLine false ⟨id, ⟨10, y0, 110, 165⟩, [65]⟩
-/-- Three (nearly) coincident lines with the same top edge - text printed three times. -/
-def cexLines : List Line := [cexLine 1 151, cexLine 3 149, cexLine 5 151]
-def cexParams : LAParams := ⟨1/2, 2, 1/2, 1/8, none, false⟩
-def cexPage : BB := ⟨0, 0, 200, 200⟩
+/-- **Scale invariance of the box stage.**  For every `s > 0`, all parameters, non-empty lines and a
+well-formed page box: `group_textlines` of the scaled lines is the scaled result - the same boxes with
+the same member lines in the same order.  (False for the pinned code - the order of equal-key lines
+followed the grid; the counter-example of the previous round is `corpus/C09/scale-equal-key-line-order.json`,
+now a regression test.) -/
+theorem C09_scale_textlines {s : Rat} (hs : 0 < s) (p : LAParams) (pageBB : BB) (hp : WfPage pageBB)
+    (lines : List Line) (hne : ∀ l ∈ lines, l.isEmpty = false) :
+    groupTextlines p (scaleBB s pageBB) (lines.map (scaleLine s)) = (groupTextlines p pageBB lines).map (scaleBox s) :=
+  groupTextlines_scale hs p pageBB hp lines hne
 
-/-- **Counter-example (open finding `C09-scale-equal-key-line-order`).**  The order in which
-`group_textlines` adds lines with EQUAL sort key to a box follows the cell scan order of `Plane.find`,
-and the 50-unit grid does not scale with the page: at scale 1 the three lines come out as 5, 3, 1, at
-scale 1/2 as 5, 1, 3 (the implementation does the same: corpus/C09/scale-equal-key-line-order.json). -/
-theorem C09_scale_cex : ¬ C09_scale_statement := by
-  intro h
-  have := h (1/2) (by decide +kernel) cexParams cexPage cexLines
-  revert this
-  decide +kernel
+/-- **Scale invariance of the whole analysis, `boxes_flow = None`.**  For every item list, every other
+parameter, every `s > 0` (not only powers of two) and a well-formed page box, the analysis of the scaled
+page is the scaled analysis: same lines, spaces, boxes, line order, numbering and child order. -/
+theorem C09_scale_analyze_none {le : Cmp} {s : Rat} (hs : 0 < s) (p : LAParams) (hbf : p.boxes_flow = none)
+    (pageBB : BB) (hp : WfPage pageBB) (items : List Item) :
+    analyze le p (scaleBB s pageBB) (items.map (scaleItem s)) = scaleResult s (analyze le p pageBB items) :=
+  analyze_none_scale hs p hbf pageBB hp items
+
+/-- **Scale invariance of the hierarchy stage.**  `group_textboxes` on the scaled boxes performs the same
+merges in the same order (simulation of the heap loop: distances scale by `s²`, so the heap order is
+unchanged; `isany` asks `Plane.find`, which is grid independent): same hierarchy, scaled; same flags. -/
+theorem C09_scale_textboxes {s : Rat} (hs : 0 < s) (pageBB : BB) (hp : WfPage pageBB) (boxes : List Box)
+    (hwf : ∀ b ∈ boxes, WfBB b.bb) :
+    groupTextboxes HEntry.le (scaleBB s pageBB) (boxes.map (scaleBox s))
+      = ((groupTextboxes HEntry.le pageBB boxes).1.map (scaleNode s), (groupTextboxes HEntry.le pageBB boxes).2) :=
+  groupTextboxes_scale hs pageBB hp boxes hwf
+
+/-- **Scale invariance of the whole outcome** (the last sentence of C09, for every `s > 0`, in particular
+every power of two; every item list; every LAParams incl. numeric `boxes_flow`; well-formed page box):
+`analyze` of the page with all coordinates multiplied by `s` is the result of `analyze` with all
+coordinates multiplied by `s` - the same lines, word spaces, text boxes, order of lines, group hierarchy,
+numbering and child order.  The heap of `group_textboxes` is ordered by `HEntry.le`, i.e. the
+implementation's tuple order with creation numbers in place of `id()` (for inputs without distance ties
+that is the implementation's order whatever `id()` returns). -/
+theorem C09_scale {s : Rat} (hs : 0 < s) (p : LAParams) (pageBB : BB) (hp : WfPage pageBB) (items : List Item) :
+    analyze HEntry.le p (scaleBB s pageBB) (items.map (scaleItem s)) = scaleResult s (analyze HEntry.le p pageBB items) :=
+  analyze_scale hs p pageBB hp items
 
 /-! ### non-vacuity -/
 
